@@ -53,17 +53,22 @@ func c14Body(size int, seed uint64, spoil string) (raw, want []byte) {
 	if spoil == "bad" || spoil == "toolong" {
 		spoilAt = r.IntN(size + 1)
 	}
+	// One write(2) per rule line: keep the traces of the larger lists at a few
+	// hundred events (now and then a long one with short lines).
+	short := r.IntN(16) == 0
 	lineLen := func() int {
 		switch {
 		case size > 1<<20:
 			return 20000 + r.IntN(40000)
 		case size > 1<<16:
-			return 500 + r.IntN(3000)
+			return 1500 + r.IntN(6000)
+		case size > 1<<12 && !short:
+			return 100 + r.IntN(800)
 		default:
 			return 8 + r.IntN(60)
 		}
 	}
-	for rb.Len() < size || (spoilAt >= 0 && rb.Len() <= spoilAt) {
+	for rb.Len() < size || spoilAt >= 0 {
 		if spoilAt >= 0 && rb.Len() >= spoilAt {
 			if spoil == "bad" {
 				rb.WriteString("||bin\x01ary.example^\n")
